@@ -608,6 +608,46 @@ class Repo:
                 return True
         return False
 
+    _PURE_BUILTINS = ('str', 'int', 'repr', 'len', 'getattr', 'isinstance', 'hasattr', 'format', 'bool', 'tuple', 'hex', 'type', 'sorted',
+                      'min', 'max', 'abs', 'ord', 'chr', 'float', 'bytes', 'list', 'dict', 'set', 'frozenset', 'any', 'all', 'sum', 'zip',
+                      'enumerate', 'range', 'iter', 'next', 'id', 'callable')
+    _PURE_METHODS = ('get', 'format', 'join', 'keys', 'values', 'items', 'startswith', 'endswith', 'strip', 'lstrip', 'rstrip', 'upper',
+                     'lower', 'title', 'split', 'replace', 'encode', 'decode', 'count', 'index', 'find', 'copy', 'hex')
+
+    def is_pure_function(self, fi: 'FuncInfo', _depth: int = 0) -> bool:
+        """a function that only computes a value from its arguments and from module / class constants: it binds nothing but its own
+        locals, has no yield / global / nonlocal, and calls only builtins and methods that do not change anything, or other such
+        functions of its module (``_display_name(table, value)`` used for a log text)"""
+        cache = self.__dict__.setdefault('_pure_cache', {})
+        if fi.key in cache:
+            return cache[fi.key]
+        cache[fi.key] = False
+        if _depth > 3:
+            return False
+        ok = True
+        for n in ast.walk(fi.node):
+            if isinstance(n, (ast.Yield, ast.YieldFrom, ast.Global, ast.Nonlocal, ast.Await, ast.Raise, ast.Delete, ast.With)):
+                ok = False
+            elif isinstance(n, (ast.Attribute, ast.Subscript)) and isinstance(n.ctx, (ast.Store, ast.Del)):
+                ok = False
+            elif isinstance(n, ast.Call):
+                fn = n.func
+                if isinstance(fn, ast.Name):
+                    if fn.id in self._PURE_BUILTINS and fn.id not in fi.module.functions:
+                        continue
+                    g = fi.module.functions.get(fn.id)
+                    if g is not None and g.key != fi.key and self.is_pure_function(g, _depth + 1):
+                        continue
+                    ok = False
+                elif isinstance(fn, ast.Attribute) and fn.attr in self._PURE_METHODS:
+                    continue
+                else:
+                    ok = False
+            if not ok:
+                break
+        cache[fi.key] = ok
+        return ok
+
     def cached_value_factory(self, fi: 'FuncInfo') -> bool:
         """``@functools.lru_cache`` (or ``cache``) on a function whose body is ``return Class(<its parameters>)`` of a class whose
         instances are never written after construction: whether a result is shared or built anew cannot be observed, the
